@@ -10,46 +10,114 @@ import (
 // sortDirection classifies a less(i,j) function as ascending or descending on
 // one key: `a[i].K < a[j].K`, `Compare(a[i].K, a[j].K) < 0`, or the mirrored forms.
 func sortDirection(fn *ssa.Function) (dir, key string, ok bool) {
-	var t *Term
 	for _, r := range Returns(fn) {
 		if r.Block() == fn.Recover || len(r.Results) != 1 {
 			continue
 		}
-		t = T(r.Results[0])
-		break
+		return returnOrder(fn, r)
 	}
-	if t == nil || t.Op != "binop" {
-		return "", "", false
-	}
+	return "", "", false
+}
+
+// returnOrder reads the ordering one return of a comparator expresses. Two comparator
+// shapes are understood: the less-function of sort.Slice (index parameters i, j; returns
+// bool) and the three-way function of slices.SortFunc (element parameters a, b; returns
+// int). The result is "asc"/"desc" and the compared key with the two sides unified.
+func returnOrder(fn *ssa.Function, r *ssa.Return) (dir, key string, ok bool) {
+	t := T(r.Results[0])
 	n := len(fn.Params)
-	iP, jP := fmt.Sprintf("[p%d]", n-2), fmt.Sprintf("[p%d]", n-1)
-	op := t.Sym
-	l, r := t.Args[0], t.Args[1]
-	if l.Op == "call" && strings.HasSuffix(l.Sym, "bytes.Compare") && r.String() == "0" {
-		l, r = l.Args[0], l.Args[1]
-	} else if r.Op == "call" && strings.HasSuffix(r.Sym, "bytes.Compare") && l.String() == "0" {
-		// 0 OP Compare(a,b)  ⇔  Compare(a,b) mirror(OP) 0
-		m := map[string]string{"<": ">", ">": "<", "<=": ">=", ">=": "<="}
-		op = m[op]
-		l, r = r.Args[0], r.Args[1]
-	}
-	ls, rs := l.String(), r.String()
-	norm := func(s string) string {
-		return strings.ReplaceAll(strings.ReplaceAll(s, iP, "[·]"), jP, "[·]")
-	}
-	if norm(ls) != norm(rs) {
+	if n < 2 {
 		return "", "", false
 	}
-	key = norm(ls)
-	iLeft := strings.Contains(ls, iP) && strings.Contains(rs, jP)
-	jLeft := strings.Contains(ls, jP) && strings.Contains(rs, iP)
+	first, second := fmt.Sprintf("p%d", n-2), fmt.Sprintf("p%d", n-1)
+	mentions := func(x *Term, p string) bool {
+		return x.Any(func(y *Term) bool { return y.Op == "param" && y.Sym == p })
+	}
+	norm := func(x *Term) string {
+		s := x.String()
+		for _, p := range []string{first, second} {
+			s = strings.ReplaceAll(s, "["+p+"]", "[·]")
+			s = strings.ReplaceAll(s, "("+p+")", "(·)")
+			s = strings.ReplaceAll(s, p+".", "·.")
+			if s == p {
+				s = "·"
+			}
+		}
+		return s
+	}
+	flip := false
+	for t.Op == "unop" && t.Sym == "-" {
+		t = t.Args[0]
+		flip = !flip
+	}
+	isCompare := func(x *Term) bool {
+		return x.Op == "call" && len(x.Args) == 2 && (strings.HasSuffix(x.Sym, "bytes.Compare") || strings.HasSuffix(x.Sym, "cmp.Compare") || strings.Contains(x.Sym, "cmp.Compare["))
+	}
+	var l, rr *Term
+	op := "<"
 	switch {
-	case iLeft && (op == "<" || op == "<="), jLeft && (op == ">" || op == ">="):
+	case isCompare(t): // three-way: Compare(a, b) orders ascending
+		l, rr = t.Args[0], t.Args[1]
+	case t.Op == "binop":
+		op = t.Sym
+		l, rr = t.Args[0], t.Args[1]
+		m := map[string]string{"<": ">", ">": "<", "<=": ">=", ">=": "<="}
+		if isCompare(l) && rr.String() == "0" {
+			l, rr = l.Args[0], l.Args[1]
+		} else if isCompare(rr) && l.String() == "0" {
+			op = m[op]
+			l, rr = rr.Args[0], rr.Args[1]
+		}
+		if _, known := m[op]; !known {
+			return "", "", false
+		}
+	default:
+		return "", "", false
+	}
+	if norm(l) != norm(rr) {
+		return "", "", false
+	}
+	key = norm(l)
+	fl := mentions(l, first) && mentions(rr, second)
+	sl := mentions(l, second) && mentions(rr, first)
+	asc := (fl && (op == "<" || op == "<=")) || (sl && (op == ">" || op == ">="))
+	desc := (fl && (op == ">" || op == ">=")) || (sl && (op == "<" || op == "<="))
+	if flip {
+		asc, desc = desc, asc
+	}
+	switch {
+	case asc:
 		return "asc", key, true
-	case iLeft && (op == ">" || op == ">="), jLeft && (op == "<" || op == "<="):
+	case desc:
 		return "desc", key, true
 	}
 	return "", "", false
+}
+
+// sortCallNames: the library sorts whose second argument is a comparator.
+func isSortCall(name string) bool {
+	return name == "sort.Slice" || name == "sort.SliceStable" || strings.HasPrefix(name, "slices.SortFunc") || strings.HasPrefix(name, "slices.SortStableFunc")
+}
+
+// sortSites lists the comparator-taking sort calls of fn with their comparator closures.
+func sortSites(fn *ssa.Function) (calls []ssa.CallInstruction, cmps []*ssa.Function) {
+	for _, call := range AllCallsDeep(fn) {
+		if !isSortCall(CalleeName(call.Common())) || len(call.Common().Args) < 2 {
+			continue
+		}
+		var f *ssa.Function
+		switch x := call.Common().Args[1].(type) {
+		case *ssa.MakeClosure:
+			f, _ = x.Fn.(*ssa.Function)
+		case *ssa.Function:
+			f = x
+		}
+		if f != nil {
+			calls = append(calls, call)
+			cmps = append(cmps, f)
+		}
+	}
+	return
 }
 
 // aggregatorSort finds the key-pair sort method SingleCommits.Aggregate calls
@@ -69,11 +137,9 @@ func aggregatorSort(p *Program) string {
 
 // sortClosure returns the less-function passed to sort.Slice in fn.
 func sortClosure(fn *ssa.Function) *ssa.Function {
-	for _, s := range CallsIn(fn, "sort.Slice") {
-		if mc, ok := s.Call.Common().Args[1].(*ssa.MakeClosure); ok {
-			f, _ := mc.Fn.(*ssa.Function)
-			return f
-		}
+	_, cmps := sortSites(fn)
+	if len(cmps) > 0 {
+		return cmps[0]
 	}
 	return nil
 }
@@ -247,10 +313,10 @@ func runC06(c *Ctx) {
 	{
 		for _, s := range CallsIn(vac, "(consensus/certificate.Certificate).VerifyAggregateCertificateSignature") {
 			a := s.Call.Common().Args
-			keys, weights := stripConv(a[1]), stripConv(a[2])
+			keys, weights := valueOrigin(a[1]), valueOrigin(a[2])
 			type fill struct{ idx, elem, field string }
 			fills := map[ssa.Value]fill{}
-			for _, b := range vac.Blocks {
+			for _, b := range blocksDeep(vac) {
 				for _, in := range b.Instrs {
 					st, ok := in.(*ssa.Store)
 					if !ok {
@@ -276,14 +342,14 @@ func runC06(c *Ctx) {
 			ok := fk.idx != "" && fk.idx == fw.idx && fk.elem == fw.elem && fk.field == "BLSKey" && fw.field == "BFTWeight"
 			c.Require("C06.R3 keys-weights-aligned", FuncKey(vac)+": keys[i] / weights[i]", p.InstrPos(s.Call), "both slices are filled at the same index from the same element (bit i ↔ key i ↔ weight i)", ok, fmt.Sprintf("keys[%s]=%s.%s weights[%s]=%s.%s", fk.idx, fk.elem, fk.field, fw.idx, fw.elem, fw.field))
 			// neither slice is handed to anything else (e.g. a sort) before the verification
-			for _, call := range AllCalls(vac) {
-				if call == s.Call {
+			for _, call := range AllCallsDeep(vac) {
+				if call == s.Call || newHelperCallee(call) != nil {
 					continue
 				}
 				for _, arg := range call.Common().Args {
-					sv := stripConv(arg)
+					sv := valueOrigin(arg)
 					if sl, isSl := sv.(*ssa.Slice); isSl {
-						sv = stripConv(sl.X)
+						sv = valueOrigin(sl.X)
 					}
 					if sv == keys || sv == weights {
 						c.Require("C06.R3 keys-weights-aligned", FuncKey(vac)+" ⇒ "+CalleeName(call.Common()), p.InstrPos(call), "neither parallel slice is passed to another function (reordering one breaks the alignment)", false, "")
